@@ -35,6 +35,9 @@ func TestMain(m *testing.M) {
 	out := bufio.NewWriterSize(os.Stdout, 1<<20)
 	defer out.Flush()
 	switch cmd {
+	case "bombchild":
+		vfBombChild()
+		os.Exit(0)
 	case "gen":
 		seed, _ := strconv.ParseInt(os.Getenv("VERIF_SEED"), 10, 64)
 		tier := os.Getenv("VERIF_TIER")
